@@ -406,3 +406,24 @@ pub fn independent_generators(name: &str, key: &str, hyps: &[F], gens: &[(String
         c.obligations.push(eng::ObRecord { name: format!("{}: {} generators pairwise independent (distinct terms, distinct shadow values)", name, gens.len()), kind: "ENUM", verdict: "held".into(), answer: "structural".into(), ms: 0.0, bytes: 0, nvars: 0, nasserts: 0, cross: vec![] })
     });
 }
+
+/// A wire image in which one atom is replaced by a non-canonical scalar / a curve point outside the prime-order group must
+/// not decode (the verifiers compute with complete curve arithmetic: a small-order component in a proof element survives
+/// the Schnorr equation whenever the challenge is a multiple of its order).  Returns the atom paths that DID decode.
+pub fn invalid_encodings_accepted<T: serde::de::DeserializeOwned>(bytes: &[u8], at: &[Atom]) -> Vec<String> {
+    let mut accepted = vec![];
+    for a in at {
+        let bad = match a.kind {
+            sx::K_SCALAR => sx::K_BAD_SCALAR,
+            sx::K_G1 => sx::K_BAD_G1,
+            sx::K_G2 => sx::K_BAD_G2,
+            _ => continue,
+        };
+        let mut b = bytes.to_vec();
+        sx::write_token(&mut b[a.off..a.off + a.width], bad, a.id);
+        if decode::<T>(&b).is_some() {
+            accepted.push(a.path.clone());
+        }
+    }
+    accepted
+}
